@@ -533,11 +533,6 @@ impl SrtpContext {
             ]);
             let index = index_with_e & 0x7FFF_FFFF;
 
-            // Replay check
-            if index > self.rtcp_index {
-                self.rtcp_index = index;
-            }
-
             let nonce = self.build_gcm_rtcp_nonce(index);
             let cipher = self
                 .rtcp_gcm_cipher
@@ -562,6 +557,11 @@ impl SrtpContext {
             let plaintext = cipher
                 .decrypt(Nonce::from_slice(&nonce), payload)
                 .map_err(|_| SrtpError::AuthenticationFailed)?;
+
+            // Advance the index only for an authenticated packet.
+            if index > self.rtcp_index {
+                self.rtcp_index = index;
+            }
 
             // Reconstruct packet: Header || Plaintext
             packet.truncate(8);
